@@ -2093,3 +2093,107 @@ def replay_c10_map(args):
         except Exception as e:
             bad.append((repr(e)[:50], (t[0] % 1000, t[1] % 1000)))
     return (len(bad) > 0), "c10_map G2: %d mismatches %s" % (len(bad), str(bad[:3])[:200])
+
+
+# ---------------------------------------------------------------------------
+# pairings (real, slow: a reference pairing costs ~10 s)
+
+_PAIR_MODS = {("ref", "bn128"): "py_ecc.bn128", ("ref", "bls12_381"): "py_ecc.bls12_381", ("opt", "bn128"): "py_ecc.optimized_bn128",
+              ("opt", "bls12_381"): "py_ecc.optimized_bls12_381"}
+
+
+def replay_c05_guards(args):
+    m = importlib.import_module(_PAIR_MODS[(args["impl"], args["curve"])])
+    one = m.FQ12.one()
+    bad = []
+    opt = args["impl"] == "opt"
+    offP = (m.FQ(1), m.FQ(1), m.FQ(1)) if opt else (m.FQ(1), m.FQ(1))
+    offQ = (m.FQ2([1, 1]), m.FQ2([1, 2]), m.FQ2.one()) if opt else (m.FQ2([1, 1]), m.FQ2([1, 2]))
+    for Q, P, nm in ((offQ, m.G1, "Q off curve"), (m.G2, offP, "P off curve"), (offQ, offP, "both off curve")):
+        try:
+            m.pairing(Q, P)
+            bad.append((nm, "paired"))
+        except ValueError:
+            pass
+        except Exception as e:
+            bad.append((nm, repr(e)[:40]))
+    infs = [((m.FQ2.one(), m.FQ2.one(), m.FQ2.zero()), m.G1), (m.G2, (m.FQ.one(), m.FQ.one(), m.FQ.zero())), ((m.FQ2([3, 4]), m.FQ2([5, 6]), m.FQ2.zero()), m.G1)] if opt else \
+        [(None, m.G1), (m.G2, None)]
+    for Q, P in infs:
+        try:
+            if m.pairing(Q, P) != one:
+                bad.append(("infinity not unit",))
+        except Exception as e:
+            bad.append(("infinity", repr(e)[:40]))
+    return (len(bad) > 0), "c05_guards %s: %s" % (args, bad[:3])
+
+
+def replay_c05_linefunc(args):
+    m = importlib.import_module(_PAIR_MODS[("ref", args["curve"])])
+    pm = importlib.import_module(_PAIR_MODS[("ref", args["curve"])] + "." + ("bn128_pairing" if args["curve"] == "bn128" else "bls12_381_pairing"))
+    p = m.field_modulus
+    FQ = m.FQ
+    rng = random.Random(5)
+    bad = []
+    for _ in range(10):
+        a, b, t = [(rng.randrange(1, p), rng.randrange(1, p)) for _ in range(3)]
+        for P1, P2 in ((a, b), (a, a), (a, (a[0], -a[1] % p))):
+            got = int(pm.linefunc((FQ(P1[0]), FQ(P1[1])), (FQ(P2[0]), FQ(P2[1])), (FQ(t[0]), FQ(t[1]))))
+            if (P1[0] - P2[0]) % p:
+                mm = (P2[1] - P1[1]) * _inv(P2[0] - P1[0], p) % p
+                exp = (mm * (t[0] - P1[0]) - (t[1] - P1[1])) % p
+            elif (P1[1] - P2[1]) % p == 0:
+                mm = 3 * P1[0] ** 2 * _inv(2 * P1[1], p) % p
+                exp = (mm * (t[0] - P1[0]) - (t[1] - P1[1])) % p
+            else:
+                exp = (t[0] - P1[0]) % p
+            if got != exp:
+                bad.append((P1[0] % 1000,))
+    return (len(bad) > 0), "c05_linefunc %s: %d mismatches" % (args["curve"], len(bad))
+
+
+def replay_c05_pairing(args):
+    """bilinearity / non-degeneracy / optimized = reference on a few scalars through the real pairings."""
+    impl, curve = args["impl"], args["curve"]
+    m = importlib.import_module(_PAIR_MODS[(impl, curve)])
+    one = m.FQ12.one()
+    bad = []
+    try:
+        e11 = m.pairing(m.G2, m.G1)
+        if e11 == one:
+            bad.append(("degenerate",))
+        if m.pairing(m.multiply(m.G2, 3), m.multiply(m.G1, 5)) != e11 ** 15:
+            bad.append(("bilinearity 3,5",))
+        if m.pairing(m.G2, m.neg(m.G1)) * e11 != one:
+            bad.append(("negation",))
+        if e11 ** m.curve_order != one:
+            bad.append(("order",))
+        if impl == "opt":
+            ref = importlib.import_module(_PAIR_MODS[("ref", curve)])
+            r11 = ref.pairing(ref.G2, ref.G1)
+            if [int(c) for c in r11.coeffs] != [int(c) for c in e11.coeffs]:
+                bad.append(("optimized != reference",))
+            a = m.pairing(m.G2, m.G1, final_exponentiate=False) * m.pairing(m.multiply(m.G2, 2), m.G1, final_exponentiate=False)
+            if m.final_exponentiate(a) != e11 ** 3:
+                bad.append(("split final exponentiation",))
+    except Exception as e:
+        bad.append((repr(e)[:60],))
+    return (len(bad) > 0), "c05_pairing %s %s: %s" % (impl, curve, bad[:3])
+
+
+replay_c12_pairing = lambda args: replay_c05_pairing({"impl": "opt", "curve": args["curve"]})
+
+
+def replay_c12_finalexp(args):
+    from py_ecc.optimized_bls12_381 import optimized_pairing as pm
+    from py_ecc.optimized_bls12_381 import FQ12, field_modulus as p, curve_order as r
+    rng = random.Random(12)
+    bad = []
+    for x in (FQ12([rng.randrange(p) for _ in range(12)]), FQ12([3] + [0] * 11), FQ12([0, 1] + [0] * 10), FQ12.one()):
+        if pm.exp_by_p(x) != x ** p:
+            bad.append(("exp_by_p",))
+        if pm.final_exponentiate(x) != x ** ((p ** 12 - 1) // r):
+            bad.append(("final_exponentiate",))
+    if pm.exp_by_p(FQ12.zero()) != FQ12.zero():
+        bad.append(("exp_by_p(0)",))
+    return (len(bad) > 0), "c12_finalexp: %s" % bad[:3]
